@@ -335,6 +335,8 @@ static int parse_sequel(token_t *tok, int outer)
                         break;
                     }
                     arg = parse_complete(tok);
+                    if (arg < 0)
+                        return -1;    /* error already recorded */
                     switch (_CFFI_GETOP(tok->output[arg])) {
                     case _CFFI_OP_ARRAY:
                     case _CFFI_OP_OPEN_ARRAY:
